@@ -16,7 +16,7 @@ out = ['# Seeded changes against the quick checks', '',
        '| seed | what it changes (from the agent\'s notes) | exit | reported by | first report |', '|---|---|---|---|---|']
 n_ok = 0
 # changes whose effect is another property's subject: reported by that property's check (runs recorded in DESIGN 9.9)
-CROSS = {'C01_k': 'C10 (oracle) and C07 (oracle, spline cases)', 'C19_n': 'C17 (oracle: second write after a failure, target excel)', 'C04_n': 'C17 (oracle: second write after a failure, target excel_eam_fs)'}
+CROSS = {'C01_k': 'C10 (oracle) and C07 (oracle, spline cases)'}
 for sid, r in rows:
     meta = json.load(open('/verif/seeded/%s/meta.json' % sid)) if os.path.exists('/verif/seeded/%s/meta.json' % sid) else {}
     summ = (meta.get('summary') or '').replace('|', '/').replace('\n', ' ')[:150]
